@@ -4,6 +4,11 @@ V = os.path.dirname(os.path.dirname(os.path.abspath(__file__)))
 props = [json.loads(l) for l in open(os.path.join(V, "properties.jsonl"))]
 
 CLAIMED = {
+    "C19": dict(
+        text="Coq theorems over all hashes, separators and ids: parse(mk_ref) round-trips, all characters valid when the separator is valid, valid_sep <-> one character of the exchange's set, length <= 32 iff id < 10^18 (bound stated), equal references have equal hash and id (uniqueness/attribution). Tie to code: hash length / valid set / default separator regenerated from /repo each run; real orders' references, the separator setter (exhaustive below U+0300) and attribution through the real process_current_orders are evaluated against the model inside Coq.",
+        note="Oracles (trusted, named): sha1 prefix = 13 hex chars (checked on every generated reference); uuid1().time injective within a run (tested with tight loops and 8 threads, not proved - partial for that clause); Python str(int) injective. Print Assumptions: closed under the global context.",
+        technique="Coq proof (list lemmas, induction on digits) + differential correspondence evaluated in Coq",
+        ref="DESIGN.md §5 C19"),
     "C17": dict(
         text="Coq theorems for all rationals / all n: the ladders equal the exchange's published increment tables; get_nearest_price returns a tick, the closest one, ties upward, clamped, idempotent; price_ticks_away from a tick lands exactly n ticks away or clamps; OrderValidation accepts exactly the orders the rules allow. Tie to code: ladders/cut-offs regenerated from /repo and re-proved each run; exhaustive differential run (0.001 grid on [0,1100], tick mid-points with float neighbours, every tick x n in [-400,400], FINEST in full, validation on real orders for 19 currencies) evaluated inside Coq.",
         note="Trusted: Coq kernel + vm_compute; gen_consts.py (reads CUTOFFS/PRICES from the imported module); Decimal(str(x)) modelled as the exact rational n/d; float product price*size in the min-payout test modelled exactly and compared on every exact-equality point; Print Assumptions: closed under the global context.",
